@@ -580,7 +580,7 @@ func buildEntries(w *world) ([]*entry, error) {
 	all = append(all, d...)
 	for _, e := range d {
 		if e.name == "credentials.CCache.Unmarshal" {
-			all = append(all, w.ccacheClientEntry(e.items))
+			all = append(all, w.ccacheClientEntry([]item{e.items[0], e.items[1], e.items[4]}))
 		}
 	}
 	c, err := w.cryptoEntries()
